@@ -98,7 +98,8 @@ def _case(draw):
             "next_method": draw(st.sampled_from(list(real.METHODS))),
             "all_points": False,
             "policies": draw(st.sampled_from([["raise", "collect"], ["raise", "collect"], ["collect"]])),
-            "stop_after": draw(st.sampled_from([False, False, True]))}
+            "stop_after": draw(st.sampled_from([False, False, True])),
+            "skip_all": draw(st.sampled_from([None, None, [draw(st.integers(0, 3)), draw(st.integers(0, 7))]]))}
 
 
 def strategy(tier):
@@ -180,6 +181,15 @@ def one_point(case, sb, am, line):
     if cause == "shortrow":
         # the aborting member must return the short row for limit_collection() to see it
         members = [dict(m, prog={"comps": [["f", "yes", [], []]], "mode": "AND"}) if i == am else m for i, m in enumerate(members)]
+    sk = case.get("skip_all")
+    if sk and method in real.BYLINE and am >= 1:
+        # breadth-first only: an earlier member signals skip_all() on an earlier data line; the later abort must
+        # still be recorded at its own line number
+        earlier = [p for p, r in enumerate(records) if r and 0 < p < line]
+        if earlier:
+            j, s_ = sk[0] % am, earlier[sk[1] % len(earlier)]
+            members = [dict(m, prog=dict(m["prog"], comps=list(m["prog"]["comps"]) + [["->", ["==", ["f", "line_number", [], []], ["t", s_]], ["f", "skip_all", [], []]]]))
+                       if i == j else m for i, m in enumerate(members)]
     texts = [member_text(m, "", comp if i == am else None, raise_comment=(i == am and case["how"] == "comment"),
                          stop_after=(line if (i == am and case.get("stop_after") and cause != "shortrow") else None)) for i, m in enumerate(members)]
     # standalone references for the members that do not abort (policy without raise for them is irrelevant: they have no error)
